@@ -160,7 +160,7 @@ def hashOf : Ty → Option (Hash' Val)
   | .void => some (fun _ => voidHash ())
   | .int => some (fun | .i x => intHash x | _ => 0)
   | .float => none
-  | .str => some (fun | .s x => strHash x | _ => 0)
+  | .str => some (fun | .s x => (strHashIndexed x).getD 0 | _ => 0)
   | .t2 a b => do
     let ha ← hashOf a
     let hb ← hashOf b
